@@ -83,6 +83,18 @@ def monitor(ctx, extended=False):
             b[2] = min(0.25 * b[1], max(b[2], ctx.rng.uniform(2e-3, 3e-2)))
             b[7] = ctx.rng.uniform(0.3, 0.45)
             a = tuple(b)
+        if i % 9 == 4:
+            # the same numbers handed over as other numeric types: an integer line speed or solids density (3 m/s, 3 t/m3), numpy doubles
+            import numpy as _np
+            b = list(a)
+            kind_ = ctx.rng.choice(['int-vls', 'int-vls', 'int-rhos', 'numpy'])
+            if kind_ == 'int-vls':
+                b[0] = ctx.rng.choice([1, 2, 3, 5, 10])
+            elif kind_ == 'int-rhos':
+                b[6] = ctx.rng.choice([2, 3, 4])
+            else:
+                b = [_np.float64(x) for x in b]
+            a = tuple(b)
         vls, Dp, d, eps, nu, rhol, rhos, Cv = a
         calls = [('Cvs_Erhg', lambda: F.Cvs_Erhg(*a, get_dict=True)), ('Cvs_regime', lambda: F.Cvs_regime(*a)), ('Cvt_Erhg', lambda: F.Cvt_Erhg(*a, get_dict=True)),
                  ('Cvt_regime', lambda: F.Cvt_regime(*a)), ('slip_ratio', lambda: F.slip_ratio(*a)), ('Cvs_from_Cvt', lambda: F.Cvs_from_Cvt(*a)), ('LDV', lambda: F.LDV(*a)),
